@@ -72,3 +72,75 @@ def rename_in_source(src: str, fn_node: ast.AST, names) -> str:
     return "\n".join(b.decode("utf-8") for b in blines)
 
 
+
+
+# ------------------------------------------------------------------ structural twins (AST level, behaviour-preserving)
+import copy as _copy
+
+
+class _IfSwap(ast.NodeTransformer):
+    """`if c: A else: B`  ->  `if not (c): B else: A`   (plain else only; elif chains are left alone)"""
+
+    def __init__(self):
+        self.n = 0
+
+    def visit_FunctionDef(self, node):
+        return node  # nested functions are separate units
+
+    visit_AsyncFunctionDef = visit_FunctionDef
+    visit_Lambda = visit_FunctionDef
+
+    def visit_If(self, node):
+        self.generic_visit(node)
+        if node.orelse and not (len(node.orelse) == 1 and isinstance(node.orelse[0], ast.If)):
+            self.n += 1
+            return ast.copy_location(ast.If(test=ast.UnaryOp(op=ast.Not(), operand=node.test), body=node.orelse, orelse=node.body), node)
+        return node
+
+
+class _RetTmp(ast.NodeTransformer):
+    """`return <expr>`  ->  `_rv_zq = <expr>; return _rv_zq`   (expr not a bare name / constant)"""
+
+    def __init__(self):
+        self.n = 0
+
+    def visit_FunctionDef(self, node):
+        return node
+
+    visit_AsyncFunctionDef = visit_FunctionDef
+    visit_Lambda = visit_FunctionDef
+
+    def visit_Return(self, node):
+        if node.value is None or isinstance(node.value, (ast.Name, ast.Constant)):
+            return node
+        self.n += 1
+        a = ast.copy_location(ast.Assign(targets=[ast.Name(id="_rv_zq", ctx=ast.Store())], value=node.value, lineno=node.lineno), node)
+        r = ast.copy_location(ast.Return(value=ast.Name(id="_rv_zq", ctx=ast.Load())), node)
+        return [a, r]
+
+
+def structural_variant(module_src: str, fn_node: ast.AST, kind: str) -> str:
+    """source of the module with ONE function rewritten by the behaviour-preserving transformation `kind`
+    ("ifswap" | "rettmp"); "" if the transformation does not apply"""
+    tree = ast.parse(module_src)
+    target = None
+    for x in ast.walk(tree):
+        if isinstance(x, (ast.FunctionDef, ast.AsyncFunctionDef)) and x.name == fn_node.name and x.lineno == fn_node.lineno:
+            target = x
+    if target is None:
+        return ""
+    if any(isinstance(y, ast.Call) and isinstance(y.func, ast.Name) and y.func.id in ("locals", "vars", "eval", "exec") for y in ast.walk(target)):
+        return ""
+    tr = _IfSwap() if kind == "ifswap" else _RetTmp()
+    new_body = []
+    for st in target.body:
+        r = tr.visit(st)
+        new_body += r if isinstance(r, list) else [r]
+    if tr.n == 0:
+        return ""
+    target.body = new_body
+    ast.fix_missing_locations(tree)
+    try:
+        return ast.unparse(tree)
+    except Exception:
+        return ""
